@@ -99,7 +99,9 @@ func c11E2EKeys(r *hx.Rng, n int) []string {
 	var ks []string
 	for tries := 0; len(ks) < n && tries < 200; tries++ {
 		k := c11RandKey(r)
-		if !utf8.ValidString(k) || strings.ContainsRune(k, 0) || len(k) > 12 || seen[k] {
+		// mrp expands $VAR in the invocation source (os.ExpandEnv, a feature),
+		// so a dollar sign cannot be written literally there
+		if !utf8.ValidString(k) || strings.ContainsAny(k, "\x00$") || len(k) > 12 || seen[k] {
 			continue
 		}
 		seen[k] = true
